@@ -31,10 +31,25 @@ type TransferManager struct {
 	inTransfers sync.Map // map[uint64]*IncomingTransfer
 
 	outNextId   uint64
-	outFeedback sync.Map // map[uint64]chan msgs.Message
+	outFeedback sync.Map // map[uint64]*outgoingFeedback
 
 	stopChan chan struct{}
 	stopped  uint32
+}
+
+// outgoingFeedback hands the peer's feedback (XFER_ACK, XFER_REFUSE) for one outgoing transfer to its Send call.
+type outgoingFeedback struct {
+	msgs chan msgs.Message
+	done chan struct{} // closed when the Send call has returned
+}
+
+// deliver a feedback message. This returns when Send has taken the message or has already returned; a peer's burst of
+// feedback for a transfer which is just finishing must not block the TransferManager's handler for ever.
+func (of *outgoingFeedback) deliver(msg msgs.Message) {
+	select {
+	case of.msgs <- msg:
+	case <-of.done:
+	}
 }
 
 // NewTransferManager for incoming and outgoing msgs.Message channels and a configured segment MTU.
@@ -84,19 +99,19 @@ func (tm *TransferManager) handle() {
 			switch msg := msg.(type) {
 			// Related to outgoing messages
 			case *msgs.DataAcknowledgementMessage:
-				if ackChan, ok := tm.outFeedback.Load(msg.TransferId); !ok {
+				if feedback, ok := tm.outFeedback.Load(msg.TransferId); !ok {
 					tm.chanErrors <- fmt.Errorf("received acknowledgement for unknown message %d", msg.TransferId)
 					return
 				} else {
-					ackChan.(chan msgs.Message) <- msg
+					feedback.(*outgoingFeedback).deliver(msg)
 				}
 
 			case *msgs.TransferRefusalMessage:
-				if ackChan, ok := tm.outFeedback.Load(msg.TransferId); !ok {
+				if feedback, ok := tm.outFeedback.Load(msg.TransferId); !ok {
 					tm.chanErrors <- fmt.Errorf("received refusal for unknown message %d", msg.TransferId)
 					return
 				} else {
-					ackChan.(chan msgs.Message) <- msg
+					feedback.(*outgoingFeedback).deliver(msg)
 				}
 
 			// Related to incoming messages
@@ -134,9 +149,13 @@ func (tm *TransferManager) handle() {
 func (tm *TransferManager) Send(b bpv7.Bundle) error {
 	transfer := NewBundleOutgoingTransfer(atomic.AddUint64(&tm.outNextId, 1)-1, b)
 
-	ackChan := make(chan msgs.Message, 32)
-	tm.outFeedback.Store(transfer.Id, ackChan)
-	defer tm.outFeedback.Delete(transfer.Id)
+	feedback := &outgoingFeedback{msgs: make(chan msgs.Message, 32), done: make(chan struct{})}
+	ackChan := feedback.msgs
+	tm.outFeedback.Store(transfer.Id, feedback)
+	defer func() {
+		tm.outFeedback.Delete(transfer.Id)
+		close(feedback.done)
+	}()
 
 	// Signal abortion from "this" main Goroutine back to the sending one.
 	var stopped uint32
